@@ -45,7 +45,8 @@ Outside the alphabet (statement silent): credit thresholds that are not strictly
   for create_with_bounds within h of the origin, grids whose axes are passed in malformed to the base constructor.
 Refusal: a ValueError (the library's argument-validation exception) raised by a constructor is accepted as "no grid returned"
   only for the input class in which no well-formed grid with the promised end points exists (a tail-mass root within h of
-  the origin) and is counted (`constructor_refuses_bound_within_h`); any other exception, or a ValueError in any other input
+  the origin; a symmetric credit grid whose mirror point -a+eps lies beyond the right root) and is counted
+  (`constructor_refuses_arguments_without_well_formed_grid`); any other exception, or a ValueError in any other input
   class, is a violation.
 Time axis: rpylib/grid/time.py has no origin, h, truncation or refine(); only the clauses of the statement that have a
   meaning for it are evaluated (sub "time": strictly increasing, finite, len == num, end points == the start/end it reports)
@@ -110,6 +111,10 @@ def _extra_model_grids(tier, dimension):
         fr = [0.5, 0.3] if dimension == 2 else [0.5, 0.3, 0.7]
         out.append({"kind": "credit", "h": 0.05, "a_frac": fr, "symmetric": True})
         out.append({"kind": "credit", "h": 0.05, "a_frac": fr, "symmetric": False})
+        # thresholds whose mirror point -a+eps may lie beyond the right truncation (margins with r < |l|)
+        for f in (0.6, 0.9):
+            out.append({"kind": "credit", "h": 0.1, "a_frac": f, "symmetric": True})
+        out.append({"kind": "credit", "h": 0.1, "a_frac": 0.9, "symmetric": False})
     out.append({"kind": "geometric", "h": 0.05, "n_side": 2, "p": 0.99})
     out.append({"kind": "geometric", "h": 0.2, "n_side": 3, "p": 0.9})
     return out
@@ -338,7 +343,7 @@ def _state_invariants(sh, ctx, snap, depth):
             j = int(np.argmax(np.diff(ax) <= 0))
             side = "left" if ax[j] < 0 else "right"
             c = lcls if side == "left" else rcls
-            out.append((f"C13:state:{comp}:not-strictly-increasing:{side}-half-axis:{dcls}{c}",
+            out.append((f"C13:state:{comp}:not-strictly-increasing:{side}-half-axis:{dcls}{c}{ctx.credit_cls}",
                         f"{where}: states {ax[j]!r} >= {ax[j + 1]!r} at indices {j},{j + 1}", {"axis": ax.tolist()}))
         if not (0 <= o < ax.size) or ax[o] != 0.0:
             val = ax[o] if 0 <= o < ax.size else None
@@ -402,6 +407,11 @@ def _promise_invariants(sh, ctx, snap, case, grid):
                     # the docstring promises only "less than"; the root is what the statement calls the target probability.
                     # beyond the root is an alarm only when the bound is not forced outwards by the neighbour +-h
                     forced = abs(abs(b) - h) <= 1e-12 * h
+                    # a symmetric credit axis may end at the mirror -l of its left end instead of the (closer) right root:
+                    # CTMCCredit promises no tail probability of its own and -l keeps more than compute_truncation's default
+                    if ctx.credit_cls and side == "right" \
+                            and core.close(b, -float(ax[0]), rtol=1e-12):
+                        forced = True
                     if forced:
                         sh.count("bound_forced_to_h_beyond_root")
                     else:
@@ -567,6 +577,7 @@ def _sub_grid(sh, case):
     ctx.nus = _margin_measures(case, model)
     ctx.promise = _promise(case, model)
     ctx.credit_levels = None
+    ctx.credit_cls = ""
     sh.cls(f"constructor:{ctx.component}")
     sh.cls(f"dimension:{case['dim']}")
     if case.get("cmodel") is not None:
@@ -602,6 +613,13 @@ def _sub_grid(sh, case):
             sh.outcome(("skipped-credit", ctx.component))
             return
         ctx.credit_levels = levels
+        if g.get("symmetric", True) and case["dim"] > 1:
+            # does a mirror point -a+eps (constructor's eps) lie at or beyond the outermost right root? decided on the density
+            p_, h_ = 0.99999, g["h"]
+            mirror = max(-a + min(abs(l - a) / 2, abs(a + h_) / 2) for a in levels)
+            beyond = all(_tail_fraction(nu, h_, mirror, "right")[0] <= (1 - p_) for nu in ctx.nus)
+            ctx.credit_cls = ":mirror-point-beyond-right-root" if beyond else ":mirror-point-inside-right-root"
+            sh.cls(f"{ctx.component}{ctx.credit_cls[1:] and ':' + ctx.credit_cls[1:]}")
 
     state0 = {}
 
@@ -650,7 +668,8 @@ def _sub_grid(sh, case):
             sh.violation(key, what, {"history": hist, "detail": detail})
         return found[0] if found else None
 
-    refusable = any(c.endswith("bound-within-h") for c in ctx.side_cls.values())
+    refusable = any(c.endswith("bound-within-h") for c in ctx.side_cls.values()) \
+        or ctx.credit_cls == ":mirror-point-beyond-right-root"
     try:
         s, t, d = core.bfs(sh, build, menu, canon, invariant, case["depth"])
     except Exception as e:
@@ -660,7 +679,7 @@ def _sub_grid(sh, case):
         # well-formed grid with the promised end points exists (truncation bound within h of the origin) does not return a
         # malformed grid. Accepted for that input class only, and only when raised by the constructor (no state built yet).
         if isinstance(e, ValueError) and refusable and "snap" not in state0:
-            sh.count("constructor_refuses_bound_within_h")
+            sh.count("constructor_refuses_arguments_without_well_formed_grid")
             sh.outcome(("refused", ctx.component, str(e)[:40]))
             sh.nontriv()
             return
